@@ -38,6 +38,8 @@ Next == /\ l <= Len(Trace)
         /\ ~Has(Ev, "crash")
         /\ CASE Ev.op = "Chain" -> ChainOK(Ev)
              [] Ev.op = "Code"  -> CodeOK(Ev)
+             \* a status code beyond the seventeen: no class is promised, but never nil (and no crash, see above)
+             [] Ev.op = "CodeX" -> Ev.from # "nil" /\ Ev.from # ""
              [] OTHER           -> FALSE
         /\ l' = l + 1
 Spec == Init /\ [][Next]_l
